@@ -927,14 +927,8 @@ impl<F: Flavor> System for Sys<F> {
                         if v.0 != tag {
                             out.v("C11", "foreign-value-returned", format!("try_send({}) failed and handed back value {}", tag, v.0));
                         }
-                        if full && self.closed {
-                            out.v("C11", "full-on-closed-channel", format!("try_send({}) reported Full on a closed channel", tag));
-                        }
                         if !full && !self.closed {
                             out.v("C11", "closed-on-open-channel", format!("try_send({}) reported Closed on an open channel", tag));
-                        }
-                        if full && self.inflight.iter().filter(|e| e.accepted).count() < self.cap {
-                            out.v("C09", "full-with-free-capacity", format!("try_send({}) reported Full although only {} of {} slots hold accepted values", tag, self.inflight.iter().filter(|e| e.accepted).count(), self.cap));
                         }
                         self.explained[v.0 as usize] = true;
                         let _ = lib(|| drop(v));
@@ -951,9 +945,6 @@ impl<F: Flavor> System for Sys<F> {
                     out.o("Empty");
                     if self.closed {
                         out.v("C11", "empty-on-closed-channel", "try_receive reported Empty on a closed channel".to_string());
-                    }
-                    if !self.inflight.is_empty() {
-                        out.v("C09", "empty-despite-value", format!("try_receive reported Empty although values {:?} are in flight", self.inflight.iter().map(|e| e.tag).collect::<Vec<_>>()));
                     }
                 }
                 Ok(Err(TryReceiveError::Closed)) => {
